@@ -204,6 +204,17 @@ static std::string obs_key(Position& p)
     return o.str();
 }
 
+// C16 on the position OBJECT a game reaches (not only on FEN text): reload from its own FEN and compare everything
+static std::string obs_reload(Position& p)
+{
+    std::string f = p.fen();
+    Position q(f);
+    std::ostringstream o;
+    o << (q == p ? 1 : 0) << (p == q ? 1 : 0) << (q.hash() == p.hash() ? 1 : 0) << (q.pawn_hash() == p.pawn_hash() ? 1 : 0) << (q.fen() == f ? 1 : 0)
+      << (q.color() == p.color() ? 1 : 0) << (q.castling_rights() == p.castling_rights() ? 1 : 0) << (q.enpassant_square() == p.enpassant_square() ? 1 : 0);
+    return o.str();
+}
+
 // ---- C07: predicates ----
 static std::string obs_preds(Position& p)
 {
@@ -414,6 +425,7 @@ static std::string dispatch_more(const std::string& op, std::istringstream& is)
     if (op == "g_legal") return run_game(is, obs_legal);
     if (op == "g_fen") return run_game(is, obs_fen);
     if (op == "g_uci") return run_game(is, obs_uci);
+    if (op == "g_reload") return run_game(is, obs_reload);
     if (op == "fen_rt") return op_fen_rt(is);
     if (op == "g_rep") return run_game(is, obs_rep);
     if (op == "walk") return op_walk(is);
